@@ -624,7 +624,14 @@ func (h *handler) resetStream(rpc *goatorepo.Rpc) error {
 		reset.Header.ProxyNext = rpc.Header.ProxyRecord[0 : len(rpc.Header.ProxyRecord)-1]
 	}
 
-	return h.rw.Write(h.ctx, reset)
+	// Hand the reset to the writer goroutine like every other envelope, so that
+	// it cannot overtake a trailer which the writer has already taken.
+	select {
+	case h.writeChan <- reset:
+		return nil
+	case <-h.ctx.Done():
+		return context.Cause(h.ctx)
+	}
 }
 
 // contextFromHeaders returns a new incoming context with metadata populated
